@@ -237,6 +237,12 @@ def rt (c impl : List String) : Option Verdict := do
   let (ok, note) := Spec.C17.holdsRoutes prom pprof obs
   pure { model := model, oracle := ok, nontrivial := false, note := note }
 
+/-- `rtd prometheus pprof | exit`: the real daemon (cmd/corerad main()) serving the debug listener was
+    sent SIGTERM: it ends with exit status 0 -/
+def rtd (_c impl : List String) : Option Verdict :=
+  pure { model := "0", oracle := impl == ["0"], nontrivial := true,
+         note := if impl == ["0"] then "" else "the daemon did not end cleanly on SIGTERM (exit status, or it had to be killed)" }
+
 /-- `cgs goroutines gathers | bad`: overlapping Prometheus gathers must all be complete -/
 def cgs (_c impl : List String) : Option Verdict :=
   pure { model := "0", oracle := impl == ["0"], nontrivial := true,
